@@ -147,6 +147,12 @@ theorem obsV_of_exists {r : Res H} {X : Obs} {P : H → Prop}
   obtain ⟨h', e, hp⟩ := hex
   rw [e]; exact hx h' hp
 
+/-- closes `Heq h (view g')` when both sides are explicit `set` chains -/
+macro "heq_fin" : tactic => `(tactic|
+  (refine ⟨?_, ?_, ?_, ?_, ?_⟩ <;> intro k <;>
+    (try simp [vIface, vMsg, vBus, vNode, vNet]) <;>
+    (try ((repeat' split) <;> simp_all [vIface, vMsg, vBus, vNode, vNet]))))
+
 /-- no dangling id: everything a registry or a link of the world names is in the world (the heap
 of a Go program always is; for the model it follows from `Inv`, see `closed_of_inv`) -/
 structure Closed (g : G) : Prop where
